@@ -143,13 +143,222 @@ Proof.
   intros H1 H2 H3 H4. apply gen_decode_encode. eapply reachable_encodable; eassumption.
 Qed.
 
+(* ====================== decode ====================== *)
+(* The tensor is the list of its entries (board[i] = py_getitem, .item() / .numpy() the identity).  The hand model
+   collapses every exception of decode() into None; the translated decode keeps the class, so the statement is
+   `agrees`: the same position, or one of IndexError / AssertionError / KeyError / AttributeError against None. *)
+(* the exceptions decode() raises on a malformed tensor: the hand model's None *)
+Definition decode_exn (e : exn) : bool :=
+  match e with IndexError | AssertionError | KeyError | AttributeError => true | _ => false end.
+Definition agrees {A} (r : res A) (o : option A) : Prop :=
+  match r, o with
+  | Ok v, Some w => v = w
+  | Crash e, None => decode_exn e = true
+  | _, _ => False
+  end.
+
+Ltac tok_norm :=
+  change EncodingGen.Token_EMPTY with Consts.tok_EMPTY in *;
+  change EncodingGen.Token_MY_TOP_FLAT with Consts.tok_MY_TOP_FLAT in *;
+  change EncodingGen.Token_MY_FLAT with Consts.tok_MY_FLAT in *;
+  change EncodingGen.Token_MY_STANDING with Consts.tok_MY_STANDING in *;
+  change EncodingGen.Token_MY_CAPSTONE with Consts.tok_MY_CAPSTONE in *;
+  change EncodingGen.Token_THEIR_TOP_FLAT with Consts.tok_THEIR_TOP_FLAT in *;
+  change EncodingGen.Token_THEIR_FLAT with Consts.tok_THEIR_FLAT in *;
+  change EncodingGen.Token_THEIR_STANDING with Consts.tok_THEIR_STANDING in *;
+  change EncodingGen.Token_THEIR_CAPSTONE with Consts.tok_THEIR_CAPSTONE in *;
+  change EncodingGen.Token_WHITE_TO_PLAY with Consts.tok_WHITE_TO_PLAY in *;
+  change EncodingGen.Token_BLACK_TO_PLAY with Consts.tok_BLACK_TO_PLAY in *;
+  change EncodingGen.Token_OUTPUT_SENTINEL with Consts.tok_OUTPUT_SENTINEL in *;
+  change EncodingGen.Token_CAPSTONES with Consts.tok_CAPSTONES in *.
+
+(* ---------- the square loop ---------- *)
+Lemma gen_kind_of_token t :
+  py_dict_get Z.eqb
+    [(Consts.tok_MY_CAPSTONE, Capstone); (Consts.tok_THEIR_CAPSTONE, Capstone); (Consts.tok_MY_STANDING, Standing);
+     (Consts.tok_THEIR_STANDING, Standing); (Consts.tok_MY_TOP_FLAT, Flat); (Consts.tok_THEIR_TOP_FLAT, Flat)] t =
+  match kind_of_token t with Some k => Ok k | None => Crash KeyError end.
+Proof.
+  unfold kind_of_token. cbn [py_dict_get]. rewrite !(Z.eqb_sym _ t).
+  repeat match goal with |- context [t =? ?c] => destruct (t =? c); [reflexivity|] end. reflexivity.
+Qed.
+
+Lemma gen_is_their_top t :
+  (t =? Consts.tok_THEIR_CAPSTONE) || (t =? Consts.tok_THEIR_STANDING) || (t =? Consts.tok_THEIR_TOP_FLAT) = is_their_top t.
+Proof. unfold is_their_top, zmem. cbn [existsb]. rewrite orb_false_r, orb_assoc. reflexivity. Qed.
+
+Definition loop_agrees (r : res (list (list piece) * option (list piece))) (o : option (list stack)) : Prop :=
+  match r, o with
+  | Ok (sqs, cur), Some b => flush cur sqs = b
+  | Crash e, None => decode_exn e = true
+  | _, _ => False
+  end.
+
+Lemma gen_decode_go to_play : forall toks cur acc,
+  loop_agrees (EncodingGen.decode_for2 to_play acc cur toks) (decode_go to_play toks cur acc).
+Proof.
+  induction toks as [|t toks IH]; intros cur acc; [reflexivity|].
+  cbn [EncodingGen.decode_for2 decode_go]. tok_norm.
+  destruct (t =? Consts.tok_MY_FLAT).
+  { destruct cur as [s|]; cbn [py_opt_append bind ret]; [apply IH|reflexivity]. }
+  destruct (t =? Consts.tok_THEIR_FLAT).
+  { rewrite gen_flip_eq. cbn [bind]. destruct cur as [s|]; cbn [py_opt_append bind ret]; [apply IH|reflexivity]. }
+  cbv zeta.
+  replace (match cur with Some t11 => acc ++ [t11] | None => acc end) with (flush cur acc) by (destruct cur; reflexivity).
+  destruct (t =? Consts.tok_EMPTY); [cbn [bind ret]; apply IH|].
+  rewrite gen_kind_of_token. destruct (kind_of_token t) as [k|]; [|reflexivity]. cbn [bind].
+  rewrite gen_is_their_top. destruct (is_their_top t); [rewrite gen_flip_eq|]; cbn [bind ret]; apply IH.
+Qed.
+
+Lemma py_getitem_nth {A} (l : list A) i : 0 <= i ->
+  py_getitem l i = match nth_error l (Z.to_nat i) with Some v => Ok v | None => Crash IndexError end.
+Proof.
+  intros Hi. unfold py_getitem, PySem.py_index.
+  destruct ((0 <=? i) && (i <? zlen l)) eqn:E; [reflexivity|].
+  replace ((i <? 0) && (0 <=? zlen l + i)) with false by (symmetry; bool_lia).
+  assert (Hge : zlen l <= i) by (apply andb_false_iff in E; destruct E as [E|E]; lia).
+  destruct (nth_error l (Z.to_nat i)) eqn:En; [|reflexivity].
+  exfalso. assert (nth_error l (Z.to_nat i) <> None) by congruence. apply nth_error_Some in H. unfold zlen in Hge. lia.
+Qed.
+
+(* the squares decode_go returns are at most one per token (plus what was there) *)
+Lemma decode_go_length to_play : forall toks cur acc b,
+  decode_go to_play toks cur acc = Some b -> zlen b <= zlen acc + 1 + zlen toks.
+Proof.
+  induction toks as [|t toks IH]; intros cur acc b H.
+  - cbn in H. injection H as <-. destruct cur; cbn [flush]; rewrite ?zlen_app; change (zlen (@nil Z)) with 0;
+      unfold zlen; cbn [length]; lia.
+  - cbn [decode_go] in H. rewrite zlen_cons.
+    destruct (t =? Consts.tok_MY_FLAT); [destruct cur; [apply IH in H; lia|discriminate]|].
+    destruct (t =? Consts.tok_THEIR_FLAT); [destruct cur; [apply IH in H; lia|discriminate]|].
+    assert (Hf : zlen (flush cur acc) <= zlen acc + 1)
+      by (destruct cur; cbn [flush]; rewrite ?zlen_app; unfold zlen; cbn [length]; lia).
+    destruct (t =? Consts.tok_EMPTY); [apply IH in H; lia|].
+    destruct (kind_of_token t); [apply IH in H; lia|discriminate].
+Qed.
+
+(* from_squares on a size above 8: DEFAULT_PIECES[size] raises IndexError *)
+Lemma gen_from_squares_big sz sqs pl : 8 < sz -> zlen sqs = sz * sz ->
+  GameGen.from_squares (mkCfg sz None None) sqs pl = Crash IndexError.
+Proof.
+  intros Hb Hl. unfold GameGen.from_squares, len. cbn [csize]. rewrite Hl, Z.eqb_refl. cbn [negb]. cbv zeta.
+  rewrite gen_from_squares_for1. cbn [bind]. unfold GameGen.flat_count. cbn [cpieces csize].
+  unfold py_getitem, PySem.py_index. change (zlen GameGen.Config_DEFAULT_PIECES) with 9.
+  replace ((0 <=? sz) && (sz <? 9)) with false by (symmetry; bool_lia).
+  replace ((sz <? 0) && (0 <=? 9 + sz)) with false by (symmetry; bool_lia). reflexivity.
+Qed.
+
+Lemma nth_error_skipn' {A} : forall m k (l : list A), nth_error l (m + k) = nth_error (skipn m l) k.
+Proof. induction m as [|m IH]; intros k [|a l]; cbn; try reflexivity; [destruct k; reflexivity|apply IH]. Qed.
+Lemma skipn_plus {A} : forall m k (l : list A), skipn (m + k) l = skipn k (skipn m l).
+Proof. induction m as [|m IH]; intros k [|a l]; cbn [skipn Nat.add]; try reflexivity; [destruct k; reflexivity|apply IH]. Qed.
+
+Definition sentinel_strip (toks : list Z) : list Z :=
+  match toks with t0 :: rest0 => if t0 =? Consts.tok_OUTPUT_SENTINEL then rest0 else toks | [] => [] end.
+
+Theorem gen_decode_agrees toks : zlen toks < 2 ^ 52 -> agrees (EncodingGen.decode toks) (decode_pos toks).
+Proof.
+  intros Hlen. destruct gen_vocabulary as (HR & HC & HFR & HFC & _).
+  unfold EncodingGen.decode, decode_pos. cbv zeta. tok_norm.
+  destruct toks as [|t0 rest0]; [reflexivity|]. rewrite py_getitem_0_cons. cbn [bind].
+  set (toks := t0 :: rest0) in *.
+  set (n := if t0 =? Consts.tok_OUTPUT_SENTINEL then 1%nat else 0%nat).
+  replace (if t0 =? Consts.tok_OUTPUT_SENTINEL then 0 + 1 else 0) with (Z.of_nat n) by (unfold n; destruct (t0 =? _); reflexivity).
+  replace (if t0 =? Consts.tok_OUTPUT_SENTINEL then rest0 else toks) with (skipn n toks)
+    by (unfold n, toks; destruct (t0 =? _); reflexivity).
+  assert (Hnth : forall k, (k <= 5)%nat -> py_getitem toks (Z.of_nat n + Z.of_nat k) =
+                   match nth_error (skipn n toks) k with Some v => Ok v | None => Crash IndexError end).
+  { intros k _. rewrite py_getitem_nth by lia. replace (Z.to_nat (Z.of_nat n + Z.of_nat k)) with (n + k)%nat by lia.
+    rewrite nth_error_skipn'. reflexivity. }
+  assert (Hsl : py_slice toks (Some (Z.of_nat n + 5)) None = skipn 5 (skipn n toks)).
+  { rewrite py_slice_suffix by lia. replace (Z.to_nat (Z.of_nat n + 5)) with (n + 5)%nat by lia.
+    apply skipn_plus. }
+  assert (Hlen1 : zlen (skipn n toks) <= zlen toks) by (unfold zlen; rewrite skipn_length; lia).
+  generalize dependent (skipn n toks). intros toks1 Hnth Hsl Hlen1.
+  pose proof (Hnth 0%nat ltac:(lia)) as H0. pose proof (Hnth 1%nat ltac:(lia)) as H1. pose proof (Hnth 2%nat ltac:(lia)) as H2.
+  pose proof (Hnth 3%nat ltac:(lia)) as H3. pose proof (Hnth 4%nat ltac:(lia)) as H4. clear Hnth.
+  change (Z.of_nat 0) with 0 in H0. rewrite Z.add_0_r in H0.
+  change (Z.of_nat 1) with 1 in H1. change (Z.of_nat 2) with 2 in H2. change (Z.of_nat 3) with 3 in H3. change (Z.of_nat 4) with 4 in H4.
+  rewrite H0. destruct toks1 as [|tp toks1]; [reflexivity|]. cbn [nth_error bind] in *.
+  change (py_range 2) with [0; 1]. cbn [EncodingGen.decode_for1]. tok_norm.
+  rewrite H1, HR, HFR, HFC. cbn [bind].
+  destruct toks1 as [|r1 toks1]; [reflexivity|]. cbn [nth_error bind] in *.
+  change (existsb (Z.eqb r1) Consts.tok_RESERVES) with (zmem r1 Consts.tok_RESERVES).
+  destruct (zmem r1 Consts.tok_RESERVES); cbn [negb andb]; [|destruct toks1 as [|? [|? [|? ?]]]; reflexivity].
+  replace (Z.of_nat n + 1 + 1) with (Z.of_nat n + 2) by lia. rewrite H2.
+  destruct toks1 as [|c1 toks1]; [reflexivity|]. cbn [nth_error bind] in *.
+  change (existsb (Z.eqb c1) Consts.tok_CAPSTONES) with (zmem c1 Consts.tok_CAPSTONES).
+  destruct (zmem c1 Consts.tok_CAPSTONES); cbn [negb andb]; [|destruct toks1 as [|? [|? ?]]; reflexivity].
+  replace (Z.of_nat n + 2 + 1) with (Z.of_nat n + 3) by lia. rewrite H3.
+  destruct toks1 as [|r2 toks1]; [reflexivity|]. cbn [nth_error bind] in *.
+  change (existsb (Z.eqb r2) Consts.tok_RESERVES) with (zmem r2 Consts.tok_RESERVES).
+  destruct (zmem r2 Consts.tok_RESERVES); cbn [negb andb]; [|destruct toks1 as [|? ?]; reflexivity].
+  replace (Z.of_nat n + 3 + 1) with (Z.of_nat n + 4) by lia. rewrite H4.
+  destruct toks1 as [|c2 sqs]; [reflexivity|]. cbn [nth_error bind] in *.
+  change (existsb (Z.eqb c2) Consts.tok_CAPSTONES) with (zmem c2 Consts.tok_CAPSTONES).
+  destruct (zmem c2 Consts.tok_CAPSTONES); cbn [negb andb]; [|reflexivity].
+  cbn [bind ret app]. replace (Z.of_nat n + 4 + 1) with (Z.of_nat n + 5) by lia. rewrite Hsl. cbn [skipn].
+  assert (Hsq : 0 <= zlen sqs) by apply zlen_nonneg. rewrite !zlen_cons in Hlen1.
+  destruct (tp =? Consts.tok_WHITE_TO_PLAY); cbn [color_eqb rev app].
+  all: match goal with |- context [EncodingGen.decode_for2 ?c [] None ?s] =>
+         pose proof (gen_decode_go c s None []) as HL; pose proof (decode_go_length c s None []) as HB;
+         unfold stack in *;
+         destruct (EncodingGen.decode_for2 c [] None s) as [[squares cur]| |e]; cbn [loop_agrees] in HL
+       end.
+  all: try contradiction.
+  all: match type of HL with context [decode_go ?a1 ?a2 ?a3 ?a4] => destruct (decode_go a1 a2 a3 a4) as [b|] end; try contradiction.
+  all: try exact HL.
+  all: cbn [bind]; replace (match cur with Some t12 => squares ++ [t12] | None => squares end) with b by (destruct cur; exact HL).
+  all: specialize (HB b eq_refl); change (zlen (@nil (list piece))) with 0 in HB.
+  all: assert (Hb52 : 0 <= zlen b < 2 ^ 52) by (split; [apply zlen_nonneg|unfold stack in *; lia]).
+  all: unfold stack in *.
+  all: unfold py_int_sqrt_float, len; replace ((0 <=? zlen b) && (zlen b <? 2 ^ 52)) with true by (symmetry; bool_lia).
+  all: cbn [bind]; destruct (Z.sqrt (zlen b) * Z.sqrt (zlen b) =? zlen b) eqn:Esq; cbn [negb]; [|reflexivity].
+  all: apply Z.eqb_eq in Esq; destruct (8 <? Z.sqrt (zlen b)) eqn:E8.
+  all: try (rewrite gen_from_squares_big by lia; reflexivity).
+  all: rewrite gen_from_squares_eq by (split; intros _; cbn [csize]; pose proof (Z.sqrt_nonneg (zlen b)); lia).
+  all: unfold from_squares; cbn [csize]; unfold stack in *; rewrite Esq, Z.eqb_refl; cbn; reflexivity.
+Qed.
+
+Corollary gen_decode_ok_iff toks p : zlen toks < 2 ^ 52 -> (EncodingGen.decode toks = Ok p <-> decode_pos toks = Some p).
+Proof.
+  intros H. pose proof (gen_decode_agrees toks H) as A. unfold agrees in A.
+  destruct (EncodingGen.decode toks) as [q| |e]; destruct (decode_pos toks) as [r|]; try contradiction;
+    split; intros E; try discriminate E; congruence.
+Qed.
+
+(* a position, or one of the four exception classes; never IllegalMove, Unmodelled, OutOfFuel, ValueError *)
+Corollary gen_decode_outcomes toks : zlen toks < 2 ^ 52 ->
+  (exists p, EncodingGen.decode toks = Ok p) \/ (exists e, EncodingGen.decode toks = Crash e /\ decode_exn e = true).
+Proof.
+  intros H. pose proof (gen_decode_agrees toks H) as A. unfold agrees in A.
+  destruct (EncodingGen.decode toks) as [q| |e]; destruct (decode_pos toks) as [r|]; try contradiction;
+    [left; exists q; reflexivity|right; exists e; split; [reflexivity|exact A]].
+Qed.
+
+(* lossless, through the translated encode AND the translated decode *)
+Theorem gen_round_trip s p : encodable p ->
+  exists l, EncodingGen.encode p s = Ok l /\
+    (zlen l < 2 ^ 52 -> exists q, EncodingGen.decode l = Ok q /\ triple q = (board p, to_move p, reserves p)).
+Proof.
+  intros He. destruct (decode_encode s p He) as (l & H1 & H2). exists l. split; [apply gen_encode_ok_iff; exact H1|].
+  intros Hl. unfold decode in H2. destruct (decode_pos l) as [q|] eqn:Eq; [|discriminate H2].
+  exists q. split; [apply gen_decode_ok_iff; assumption|]. cbn in H2. congruence.
+Qed.
+
 (* ---------- the hypotheses are satisfiable; the guard matters ---------- *)
 Example gen_encode_nonvacuous :
   encodable ex_pos /\ (exists l, EncodingGen.encode ex_pos true = Ok l /\ decode l = Some (triple ex_pos)) /\
   (* reserves -1 encode like reserves 49 (negative wrap), reserves 50 raise IndexError *)
   EncodingGen.encode (mkPos 3 (-1) 0 10 0 2 (repeat [] 9)) true = EncodingGen.encode (mkPos 3 49 0 10 0 2 (repeat [] 9)) true /\
-  EncodingGen.encode (mkPos 3 50 0 10 0 2 (repeat [] 9)) true = Crash IndexError.
+  EncodingGen.encode (mkPos 3 50 0 10 0 2 (repeat [] 9)) true = Crash IndexError /\
+  (* decode: a buried-flat token before any square is an AttributeError, an unknown token a KeyError, a short tensor
+     an IndexError, a reserve token outside the vocabulary an AssertionError *)
+  EncodingGen.decode [9; 203; 253; 203; 253; 2] = Crash AttributeError /\
+  EncodingGen.decode [9; 203; 253; 203; 253; 77] = Crash KeyError /\
+  EncodingGen.decode [255; 9; 203] = Crash IndexError /\
+  EncodingGen.decode [9; 11; 253; 203; 253] = Crash AssertionError.
 Proof.
   split; [exact ex_pos_encodable|]. split; [apply gen_decode_encode; exact ex_pos_encodable|].
-  split; vm_compute; reflexivity.
+  repeat split; vm_compute; reflexivity.
 Qed.
